@@ -9,7 +9,7 @@ import hashlib
 
 from hypothesis import strategies as st
 
-from pbt.core import Violation, hyp_run, use_repo
+from pbt.core import Violation, fuzz_run, hyp_run, use_repo
 
 use_repo()
 from electrumx.lib.merkle import Merkle, MerkleCache   # noqa: E402
@@ -36,7 +36,8 @@ RULE = ('(a) exhaustive: every list length n in 1..N (N=300 quick, 640 thorough)
         'complete in a generated order (in the server every read is a worker-thread job, so '
         'requests interleave at each read); each result compared with the from-scratch '
         'computation; non-trivial = two reads in flight at once. '
-        'distinct = distinct (n,index) pairs / distinct op sequences.')
+        'distinct = distinct (n,index) pairs / distinct op sequences.' 
+        'c12.fuzz_concurrent: the concurrent-schedule cases steered by libFuzzer coverage of lib/merkle.py (pbt/fuzz.py), same oracle.')
 ASSUMPTIONS = ['hashlib.sha256 is correct', 'the MerkleCache source only changes at or above a '
                'length the cache has been truncated to (as DB.backup_fs guarantees)']
 BUDGET_S = {'quick': 100, 'thorough': 3000}
@@ -381,8 +382,11 @@ def cache_body(ctx):
 
 
 def run_cache(ctx):
-    hyp_run(ctx, 'c12.cache', CACHE_CASE, cache_body(ctx), ctx.pick(150, 20000), frac=0.5)
-    hyp_run(ctx, 'c12.concurrent', CONC_CASE, conc_body(ctx), ctx.pick(300, 20000))
+    hyp_run(ctx, 'c12.cache', CACHE_CASE, cache_body(ctx), ctx.pick(150, 20000), frac=0.4)
+    hyp_run(ctx, 'c12.concurrent', CONC_CASE, conc_body(ctx), ctx.pick(300, 20000), frac=0.6)
+    # the same schedules (requests, completion order, reorganisation point) steered by libFuzzer's
+    # coverage of lib/merkle.py instead of Hypothesis's PRNG (pbt/fuzz.py)
+    fuzz_run(ctx, 'c12.fuzz_concurrent', ctx.pick(400, 300000), frac=0.6)
 
 
 # ---- several requests in flight ------------------------------------------------------------------
@@ -714,6 +718,10 @@ def run_large(ctx):
     hyp_run(ctx, 'c12.large', LARGE_CASE, large_body(ctx), ctx.pick(2, 40), shrink=False, frac=0.3)
 
 
+FUZZ_TARGETS = {'c12.fuzz_concurrent': {'kind': 'hyp', 'strategy': CONC_CASE, 'make': conc_body,
+                                        'max_len': 2048}}
+
+
 def run(ctx):
     run_branch_length(ctx)
     run_large(ctx)
@@ -757,7 +765,7 @@ def replay(ctx, check, case):
         except Violation as v:
             return v.message, v.sig
         return None
-    if check == 'c12.concurrent':
+    if check in ('c12.concurrent', 'c12.fuzz_concurrent'):
         msg, _ = run_conc_case(case)
         return (msg, 'concurrent') if msg else None
     if check == 'c12.cache_enum':
